@@ -20,7 +20,11 @@ pub fn check() -> Check {
 }
 
 fn plan(tier: Tier) -> Vec<Workload> {
-    vec![Workload::new("events", tier.pick(20_000, 500_000))]
+    vec![
+        Workload::new("events", tier.pick(20_000, 500_000)),
+        // the real main.ts executed under node against the real adapter (batches of scenarios per node process)
+        Workload::new("page_js", tier.pick(48, 960)),
+    ]
 }
 
 #[derive(Clone, Debug)]
@@ -368,6 +372,202 @@ impl Page {
     }
 }
 
+impl Page {
+    /// One adapter call requested by the real page script running under node. Ok(value) or Err(trap message).
+    fn rpc(&mut self, call: &str, args: &[serde_json::Value]) -> Result<serde_json::Value, String> {
+        let arg0 = args.first().and_then(|v| v.as_str()).unwrap_or("").to_string();
+        let before = self.problems.len();
+        let trap_of = |page: &Page, before: usize| -> Option<String> {
+            page.problems[before..].iter().find(|(sig, _)| sig.starts_with("trap:")).map(|(_, m)| m.clone())
+        };
+        let value = match call {
+            "new" => {
+                match self.guard("new", |js| { *js = JsInterpreter::new(); }) {
+                    Some(()) => { self.shadow = Interpreter::default(); self.shadow_err = None; }
+                    None => {}
+                }
+                serde_json::Value::Null
+            }
+            "randomize" => {
+                let seed: u64 = arg0.parse().unwrap_or(0);
+                if self.guard("randomize", move |js| js.randomize(seed)).is_some() {
+                    self.shadow.randomize(seed);
+                }
+                serde_json::Value::Null
+            }
+            "start_evaluating" => {
+                // the shadow is only driven when the call is legal for the core (the real adapter panics otherwise)
+                if self.shadow_err.is_none() && self.shadow.get_state() == InterpreterState::Idle {
+                    self.start_evaluating(&arg0);
+                } else {
+                    let l = arg0.clone();
+                    self.guard("start_evaluating", move |js| js.start_evaluating(l));
+                }
+                serde_json::Value::Null
+            }
+            "continue_evaluating" => {
+                if self.shadow_err.is_none() && self.shadow.get_state() == InterpreterState::Running {
+                    self.continue_evaluating();
+                } else {
+                    self.guard("continue_evaluating", |js| js.continue_evaluating());
+                }
+                serde_json::Value::Null
+            }
+            "provide_input" => {
+                let t = arg0.clone();
+                if self.guard("provide_input", move |js| js.provide_input(t)).is_some() {
+                    if self.shadow.get_state() == InterpreterState::AwaitingInput {
+                        self.shadow.provide_input(arg0.clone());
+                    } else {
+                        self.problem("shadow-diverged", "provide_input accepted by the adapter while the core interpreter is not awaiting input".into());
+                    }
+                }
+                serde_json::Value::Null
+            }
+            "break_at_current_location" => {
+                if self.guard("break_at_current_location", |js| js.break_at_current_location()).is_some() {
+                    self.shadow.break_at_current_location();
+                    self.stats.breaks += 1;
+                }
+                serde_json::Value::Null
+            }
+            "get_state" => {
+                // compare, but hand the adapter's own answer to the page
+                let got = self.guard("get_state", |js| js.get_state() as u32);
+                if let Some(g) = got {
+                    let want = if self.shadow_err.is_some() { 3 } else {
+                        match self.shadow.get_state() { InterpreterState::Idle => 0, InterpreterState::Running => 1, InterpreterState::AwaitingInput => 2, InterpreterState::NewInterpreterRequested => 99 }
+                    };
+                    if g != want {
+                        self.problem("state-mismatch", format!("adapter reports state {} but the core interpreter driven by the same calls is in state {}", g, want));
+                    }
+                    json!(g)
+                } else {
+                    serde_json::Value::Null
+                }
+            }
+            "take_latest_output" => {
+                let outs = self.guard("take_latest_output", |js| {
+                    js.take_latest_output().into_iter().map(|o| (o.output_type as u32, o.into_string())).collect::<Vec<_>>()
+                });
+                match outs {
+                    Some(outs) => {
+                        let want: Vec<(u32, String)> = self.shadow.take_output().iter().map(|o| (out_type(o), o.to_string())).collect();
+                        self.stats.outputs += outs.len() as u64;
+                        let norm = |v: &Vec<(u32, String)>| -> Vec<(u32, String)> {
+                            v.iter().map(|(t, s)| if s.starts_with("Interpreter {") { (*t, "<INTERNALS dump>".to_string()) } else { (*t, s.clone()) }).collect()
+                        };
+                        if norm(&outs) != norm(&want) {
+                            self.problem("output-mismatch", format!("adapter output records {:?} but the core interpreter produced {:?}", outs, want));
+                        }
+                        json!(outs.iter().map(|(t, s)| json!([t, s])).collect::<Vec<_>>())
+                    }
+                    None => serde_json::Value::Null,
+                }
+            }
+            "take_latest_error" => {
+                let err = self.guard("take_latest_error", |js| js.take_latest_error());
+                match err {
+                    Some(got) => {
+                        let want = self.shadow_err.take();
+                        match (&got, want) {
+                            (Some(g), Some((with_caret, plain))) => {
+                                if *g != with_caret && *g != plain {
+                                    self.problem("error-text-mismatch", format!("adapter error text {:?}; core gives {:?}", g, with_caret));
+                                }
+                                self.stats.errors_shown += 1;
+                            }
+                            (None, Some(_)) => self.problem("error-undefined", "the core raised an error but take_latest_error() returned nothing".into()),
+                            (Some(g), None) => self.problem("spurious-error", format!("adapter reports error {:?} the core did not raise", g)),
+                            (None, None) => {}
+                        }
+                        match got { Some(g) => json!(g), None => serde_json::Value::Null }
+                    }
+                    None => serde_json::Value::Null,
+                }
+            }
+            other => return Err(format!("unknown adapter method {}", other)),
+        };
+        if let Some(t) = trap_of(self, before) {
+            return Err(t);
+        }
+        Ok(value)
+    }
+}
+
+/// Run a batch of scenarios through node; returns per scenario (problems, log) or Err(reason) when node cannot be used.
+fn run_page_js(scenarios: &[(u64, Option<String>, Vec<Event>)], facts: &PageFacts) -> Result<Vec<(Vec<(String, String)>, serde_json::Value, Stats, u64)>, String> {
+    use std::io::{BufRead, BufReader, Write};
+    let dir = format!("{}/target/tmp", crate::runner::VERIF_DIR);
+    let _ = std::fs::create_dir_all(&dir);
+    let file = format!("{}/c19-scenarios-{}-{}.json", dir, std::process::id(), scenarios.first().map(|s| s.0).unwrap_or(0));
+    let js: Vec<serde_json::Value> = scenarios.iter().enumerate().map(|(k, (seed, program, events))| {
+        json!({"id": k, "seed": seed.to_string(), "program": program, "events": events.iter().filter_map(|e| match e {
+            Event::Tick => Some(json!({"t": "tick"})),
+            Event::Break => Some(json!({"t": "break"})),
+            Event::Submit(s) => Some(json!({"t": "submit", "text": s})),
+            _ => None,
+        }).collect::<Vec<_>>()})
+    }).collect();
+    std::fs::write(&file, serde_json::to_string(&js).unwrap_or_default()).map_err(|e| format!("cannot write scenario file: {}", e))?;
+    let mut child = std::process::Command::new("node")
+        .arg(format!("{}/harness/js/page_driver.js", crate::runner::VERIF_DIR))
+        .arg(&file)
+        .arg("/repo/abasic-web/ts/main.ts")
+        .stdin(std::process::Stdio::piped())
+        .stdout(std::process::Stdio::piped())
+        .stderr(std::process::Stdio::piped())
+        .spawn()
+        .map_err(|e| format!("cannot start node: {}", e))?;
+    let mut stdin = child.stdin.take().unwrap();
+    let stdout = child.stdout.take().unwrap();
+    let mut results = vec![];
+    let mut page = Page::new(facts.clone());
+    let mut done = false;
+    let started = std::time::Instant::now();
+    for line in BufReader::new(stdout).lines() {
+        let Ok(line) = line else { break };
+        let Ok(v) = serde_json::from_str::<serde_json::Value>(&line) else { continue };
+        let call = v.get("call").and_then(|c| c.as_str()).unwrap_or("");
+        let args: Vec<serde_json::Value> = v.get("args").and_then(|a| a.as_array()).cloned().unwrap_or_default();
+        let reply = match call {
+            "__begin" => {
+                page = Page::new(facts.clone());
+                json!({"ok": null})
+            }
+            "__end" => {
+                let log = args.first().cloned().unwrap_or(serde_json::Value::Null);
+                let p = std::mem::replace(&mut page, Page::new(facts.clone()));
+                results.push((p.problems, log, p.stats, p.calls));
+                json!({"ok": null})
+            }
+            "__done" => {
+                done = true;
+                break;
+            }
+            other => match page.rpc(other, &args) {
+                Ok(val) => json!({"ok": val}),
+                Err(trap) => json!({"trap": trap}),
+            },
+        };
+        if stdin.write_all(format!("{}\n", reply).as_bytes()).is_err() {
+            break;
+        }
+        let _ = stdin.flush();
+        if started.elapsed().as_secs() > 600 {
+            break;
+        }
+    }
+    drop(stdin);
+    let out = child.wait_with_output();
+    let _ = std::fs::remove_file(&file);
+    if !done {
+        let stderr = out.map(|o| String::from_utf8_lossy(&o.stderr).to_string()).unwrap_or_default();
+        return Err(format!("node driver did not finish ({} of {} scenarios): {}", results.len(), scenarios.len(), crate::util::truncate(stderr.trim(), 300)));
+    }
+    Ok(results)
+}
+
 fn program_text(rng: &mut Rng) -> String {
     let g = prog::generate(rng, &GenOpts { inputs: true, stops: true, ..GenOpts::default() });
     let mut lines = g.prog.text_lines();
@@ -416,6 +616,9 @@ fn run_case(ctx: &Ctx, index: u64, rep: &mut Report) {
             return;
         }
     };
+    if ctx.workload == "page_js" {
+        return run_case_page_js(ctx, index, rep, &facts);
+    }
     let mut rng = ctx.rng(index);
     let n = 5 + rng.usize(296);
     let mut events = vec![];
@@ -486,6 +689,64 @@ fn run_case(ctx: &Ctx, index: u64, rep: &mut Report) {
     }
 }
 
+fn run_case_page_js(ctx: &Ctx, index: u64, rep: &mut Report, facts: &PageFacts) {
+    let mut rng = ctx.rng(index);
+    let batch = 40;
+    let mut scenarios = vec![];
+    for _ in 0..batch {
+        let g = prog::generate(&mut rng, &GenOpts { inputs: true, stops: true, ..GenOpts::default() });
+        let g_lines = g.prog.text_lines();
+        let program = if rng.coin() { Some(program_text(&mut rng)) } else { None };
+        let n = 5 + rng.usize(150);
+        let mut events = vec![];
+        for _ in 0..n {
+            events.push(match rng.below(10) {
+                0..=5 => Event::Tick,
+                6 => Event::Break,
+                _ => Event::Submit(submit_text(&mut rng, &g_lines).replace('\n', " ")),
+            });
+        }
+        let seed = match rng.below(3) { 0 => rng.next_u64(), 1 => u64::MAX - rng.below(5), _ => rng.below(1 << 40) };
+        scenarios.push((seed, program, events));
+    }
+    match run_page_js(&scenarios, facts) {
+        Err(why) => rep.inconclusive.push(format!("the real page script could not be executed under node: {}", why)),
+        Ok(results) => {
+            for (k, (problems, log, stats, calls)) in results.into_iter().enumerate() {
+                rep.count("page_js.scenarios");
+                rep.evaluations += 1;
+                rep.add("page_js.adapter_calls", calls);
+                rep.add("page_js.outputs_compared", stats.outputs);
+                rep.add("page_js.errors_shown", stats.errors_shown);
+                rep.add("page_js.breaks", stats.breaks);
+                rep.add("page_js.events_applied", log.get("events_applied").and_then(|x| x.as_u64()).unwrap_or(0));
+                let (seed, program, events) = &scenarios[k];
+                let case = || json!({"seed": seed.to_string(), "program": program.as_ref().map(|p| p.split('\n').map(|s| s.to_string()).collect::<Vec<_>>()),
+                    "events": events.iter().take(200).map(|e| format!("{:?}", e)).collect::<Vec<_>>(), "page_log": log});
+                if let Some(u) = log.get("unsupported").and_then(|x| x.as_str()) {
+                    rep.inconclusive.push(format!("main.ts uses syntax the type stripper cannot handle: {}", u));
+                    return;
+                }
+                if let Some((sig, msg)) = problems.first() {
+                    ctx.violation(rep, "C19", &format!("page_js:{}", sig), index, format!("real main.ts under node: {}", msg), case());
+                    continue;
+                }
+                if let Some(e) = log.get("exception").and_then(|x| x.as_str()) {
+                    ctx.violation(rep, "C19", "page_js:page-exception", index, format!("the page script threw: {}", e), case());
+                    continue;
+                }
+                if let Some(t) = log.get("trap").and_then(|x| x.as_str()) {
+                    ctx.violation(rep, "C19", "page_js:trap", index, format!("the adapter trapped: {}", t), case());
+                    continue;
+                }
+                if program.is_some() && stats.outputs > 0 {
+                    rep.nontrivial(hash_str(&format!("js{:?}{:?}", program, events)));
+                }
+            }
+        }
+    }
+}
+
 fn finalize(_tier: Tier, rep: &mut Report) -> Finalize {
     Finalize {
         rule: "A case is a sequence of 5-300 page events (a program file loaded at start-up or a plain start; submitted texts: program lines, immediate statements, commands RUN/CONT/LIST/NEW/TRACE, replies, the break emoji, arbitrary text; break requests; timer ticks) handled by a transliteration of main.ts (loader, start, submitUserInput, breakAtCurrentLocation, handleCurrentState with its timers and the disabled-input state) against the real JsInterpreter; every adapter call is guarded (a panic is a trap) and mirrored on a shadow core interpreter: state, output records (type and text, in order) and error text must match; NEW must behave like a fresh interpreter. \
@@ -499,9 +760,11 @@ fn finalize(_tier: Tier, rep: &mut Report) -> Finalize {
             ("NEW_replacements".into(), 500),
             ("load_lines_with_error".into(), 500),
             ("distinct_nontrivial".into(), 3_000),
+            ("page_js.scenarios".into(), 1_000),
+            ("page_js.adapter_calls".into(), 100_000),
         ],
         assumptions: vec![
-            "the TypeScript itself is not executed (no tsc / wasm runtime in the sandbox): M-page is a transliteration tied to main.ts by source patterns".into(),
+            "page_js executes the real main.ts under node after a regex type-stripper (inconclusive if it stops parsing); ui.ts (DOM plumbing) is mocked; events workload: the TypeScript itself is not executed (no tsc / wasm runtime in the sandbox): M-page is a transliteration tied to main.ts by source patterns".into(),
             "the adapter is the native rlib build of abasic-web (default features off), not the wasm artefact".into(),
         ],
         exhaustive: false,
